@@ -285,9 +285,12 @@ type Prop struct {
 	// "pairs=N disagreements=M".
 	Conformance     string
 	ConformanceArgs map[string]string // tier -> argument
-	Rule            string
-	Assumptions     []string
-	Trusted         []string
+	// Post runs once in the parent after the workers' results are merged (e.g. to run a
+	// separately built binary); it may add violations.
+	Post        func(r *Result, tier string)
+	Rule        string
+	Assumptions []string
+	Trusted     []string
 }
 
 var registry = map[string]*Prop{}
